@@ -7,7 +7,7 @@ HOOKS = {
 }
 
 ENGINES = [
-    {"name": "seqmc", "path": "/verif/seqmc", "serves_properties": ["C10"],
+    {"name": "seqmc", "path": "/verif/seqmc", "serves_properties": ["C01", "C02", "C08", "C10", "C13"],
      "kind_free_text": "Engine A: bounded-exhaustive sequential explorer (deterministic enumerators over boundary alphabets, sharded worker processes, guard-page memory, explicit-state BFS over operation sequences with replay on fresh instances)"},
 ]
 
@@ -16,6 +16,30 @@ NOTES = "All checks are driven by bin/vcheck (lib/vcheck.py): it rebuilds the en
 NOT_APPLICABLE = {}
 
 CHECKS = {
+    "C01": {
+        "engine": "seqmc", "level": "exploration", "design_ref": "DESIGN.md §P C01",
+        "technique": "bounded-exhaustive enumeration of value trees (all trees <=3/4 nodes over a boundary alphabet x every tag write order x 6 construction routes, plus parametric boundary families) against the tree as reference model",
+        "text": "Every value tree up to the node bound over a boundary alphabet of all 15 scalar kinds, lists, messages (every ordered selection of distinct tags from {1,2,254,255,256,65535}) and structs, plus families sweeping element/field counts 0..60 and 250..260, tag bases, filler sizes 65500..65560 across the 64K offset boundary, nesting depth 1..20 and each big/small switch reason, is written through six construction routes (pooled, explicit+Free, caller buffer, raw Any, Copy/Merge, generic typed) of the real writer and read back through every accessor, including absent-tag probes around every written tag; the tree itself is the oracle.",
+        "note": "Trees larger than the bound are covered only by the parametric families. Duplicate tags are outside the property's premise and not generated.",
+    },
+    "C02": {
+        "engine": "seqmc", "level": "exploration", "design_ref": "DESIGN.md §P C02",
+        "technique": "exhaustive enumeration of all byte strings up to 2/3 bytes and of structure-aware mutations of every small valid encoding, each driven through the whole public read surface on guard-page-bordered memory",
+        "text": "All byte strings of length 0..2 (quick) / 0..3 (thorough), every single-byte x256 and trailer-pair mutation of every distinct small valid encoding, front truncations, hostile prefixes and explicit table corruptions are placed flush against both ends of a PROT_NONE-guarded mapping and pushed through every Parse*/Open*/Decode* entry point, table accessor, typed Value/List/Message accessor, typed list wrapper and the generated struct decoder. Oracle: no panic, no fault, 0<=n<=len(input), every returned slice inside the input.",
+        "note": "Inputs longer than 3 bytes that are not within the enumerated mutation distance of a small valid encoding are not covered; an over-read is detected when it crosses the input boundary (guard page) or when a returned slice lies outside the input.",
+    },
+    "C08": {
+        "engine": "seqmc", "level": "exploration", "design_ref": "DESIGN.md §P C08",
+        "technique": "bounded-exhaustive enumeration of the C01 tree space x 4 writer histories, byte-compared with an independently written reference codec and a golden corpus frozen at the pinned commit",
+        "text": "For every tree of the C01 space the library's bytes produced by a fresh writer, by a writer Reset over a 0xAA-filled buffer, by a pooled writer after a larger unrelated message and after a failed program must all equal the bytes of an independent reference encoder (seqmc/refcodec, sharing no code with the repository); the reference decoder must read the library bytes to the same tree, the library must read the reference bytes, and sha256 digests of all 74k quick-tier encodings are compared with a corpus captured at commit 554461f.",
+        "note": "Trusts the reference codec as the statement of the pinned layout (cross-validated against the golden corpus).",
+    },
+    "C13": {
+        "engine": "seqmc", "level": "exploration", "design_ref": "DESIGN.md §P C13",
+        "technique": "exhaustive enumeration of short inputs and mutations; for each parser-accepted input, agreement of parse/open/probe and re-decoding behind an exhaustive single-byte prefix alphabet plus varint look-alike prefixes",
+        "text": "For every input of the C02 space that ParseValue accepts: DecodeTypeSize and OpenValue(Err) must report the same type and size, re-parsing the returned value must be the identity, every nested field/element must be readable through probe, open and its typed accessor, and the value must decode identically (all from-the-end decoders fingerprinted) behind each of 282 prefixes: every single byte, 2/4/8-byte strings ending in 0xfd/0xfe/0xff, valid encodings.",
+        "note": "Locality is compared through a 64-bit fingerprint of all decoder results.",
+    },
     "C10": {
         "engine": "seqmc", "level": "exploration", "design_ref": "DESIGN.md §P C10",
         "technique": "bounded-exhaustive enumeration (whole domain for <=16-bit and, in thorough, all 2^32 patterns of int32/uint32/float32; structured lattice for 64-bit) with encode/decode identity and cross-width numeric oracle",
